@@ -78,6 +78,12 @@ def _atom(test: ast.expr, polarity: bool) -> Fact:
     if isinstance(inner, ast.Compare) and len(inner.ops) == 1:
         op = inner.ops[0]
         a, b = inner.left, inner.comparators[0]
+        # ``x is True`` / ``x == False`` ... on boolean-valued expressions are truth tests of x
+        if isinstance(op, (ast.Is, ast.IsNot, ast.Eq, ast.NotEq)):
+            for x, y in ((a, b), (b, a)):
+                if isinstance(y, ast.Constant) and isinstance(y.value, bool) and _boolean_valued(x):
+                    pol = polarity if isinstance(op, (ast.Is, ast.Eq)) else not polarity
+                    return _atom(x, pol if y.value else not pol)
         if isinstance(op, ast.LtE):
             return Fact("LE", (_s(a), _s(b)), polarity, test)
         if isinstance(op, ast.GtE):
@@ -118,6 +124,18 @@ def _atom(test: ast.expr, polarity: bool) -> Fact:
     if isinstance(inner, ast.BinOp) and isinstance(inner.op, ast.BitAnd):
         return Fact("DISJOINT", tuple(sorted((_s(inner.left), _s(inner.right)))), not polarity, test)
     return Fact("TRUTH", (_s(inner),), polarity, test)
+
+
+def _boolean_valued(node: ast.expr) -> bool:
+    node = _unwrap_walrus(node)
+    last = node.attr if isinstance(node, ast.Attribute) else node.id if isinstance(node, ast.Name) else ""
+    if last.startswith(("is_", "has_")) or last in ("done", "persisted"):
+        return True
+    if isinstance(node, ast.Call) and isinstance(node.func, ast.Attribute) and node.func.attr in ("is_supported_by", "isdisjoint", "issubset", "issuperset"):
+        return True
+    if isinstance(node, ast.Call) and isinstance(node.func, ast.Name) and node.func.id == "isinstance":
+        return True
+    return False
 
 
 def step_facts(step: Step) -> list[Fact]:
